@@ -17,7 +17,7 @@ KidJ(ch) == [lids |-> [i \in 1..Len(ch.L) |-> IF ch.L[i].ok THEN ch.L[i].id ELSE
              diff |-> [i \in 1..Len(ch.L) |-> B(i <= Len(ch.D) /\ ch.D[i] = DiffOf(ch.L[i]))]]
 Scn == [img |-> [n |-> img.n, hist |-> HistStr(img.hist), shape |-> img.shape, mt |-> img.fam, comp |-> img.comp,
                  data |-> B(img.data), refs |-> B(img.refs), ext |-> 0],
-        place |-> place,
+        place |-> place, src |-> src,
         prog |-> [j \in 1..Len(prog) |-> OptJ(prog[j])],
         noop |-> B(NoopProg),
         expect |-> [err |-> B(err # ""), why |-> err, unchanged |-> B(Unchanged), resolves |-> B(Resolves),
@@ -26,7 +26,12 @@ Scn == [img |-> [n |-> img.n, hist |-> HistStr(img.hist), shape |-> img.shape, m
 Emit == Done => PrintT(<<"SCN", ToJson(Scn)>>)
 
 \* universes for the generator configurations
-ImagesGen == UNION {{Img(n, h, sh, fam, comp, data, refs) : h \in AllPats(n, 2) \cup {<<>>}} :
+\* (the alignment universe is covered exhaustively by ModMC and by the pairs; here a spread of patterns)
+GenPats(n) == CASE n = 1 -> {<<"L">>, <<"E", "L">>, <<"L", "E">>, <<>>}
+                [] n = 2 -> {<<"L", "L">>, <<"L", "E", "L">>, <<"E", "L", "L", "E">>, <<"E", "L", "E", "L">>}
+                [] n = 3 -> {<<"L", "L", "L">>, <<"L", "E", "L", "L">>, <<"E", "L", "L", "E", "L">>, <<"L", "L", "E", "E", "L">>,
+                             <<"E", "E", "L", "L", "L">>, <<"L", "L", "L", "E", "E">>, <<>>}
+ImagesGen == UNION {{Img(n, h, sh, fam, comp, data, refs) : h \in GenPats(n)} :
                       n \in 1..3, sh \in {"image", "index"}, fam \in {"oci", "docker"},
                       comp \in {"gzip", "zstd", "none", "mixed"}, data \in BOOLEAN, refs \in BOOLEAN}
 OptsExtra == {O("ToOCIReferrers"), O("ExternalURLsRm")}     \* no-ops on these images; effective on the runner's attest / ext variants
